@@ -25,22 +25,24 @@ RULE = ('tables {2x3, 3x2, 3x3 (+4x2, 2x4 thorough)} x 2 layouts x axis x every 
         'the 15 pathway sequences (length 0..3 over {A,B}) to each vector x {add,divide} x axis; non-trivial '
         '= at least two distinct labels in use; distinct by (table, axis, labelling, form)')
 
-LABELS = ['A', 'B', None, ['A', 'x'], 0, '']      # incl. falsy labels that are not None
-PATHS = [()] + [p for k in (1, 2, 3) for p in itertools.product('AB', repeat=k)]   # 15 sequences
+GA, GB = 'K10', 'K2'      # group labels whose natural order (K2 < K10) differs from their string order (K10 < K2)
+LABELS = [GA, GB, None, [GA, 'x'], 0, '']      # incl. falsy labels that are not None
+PATHS = [()] + [p for k in (1, 2, 3) for p in itertools.product((GA, GB), repeat=k)]   # 15 sequences
 
 
 def hashable(x):
     return tuple(x) if isinstance(x, list) else x
 
 
-def make(shape, layout, zero=False):
+def make(shape, layout, zero=False, partial=False):
     from biom import Table
     N, Mm = shape
     # ids of unequal length, the shorter ones first (a group's ids must not inherit the width of its first member)
     o = ['o' + 'x' * i + '%d' % (i + 1) for i in range(N)]
     s = ['s%d' % (j + 1) + 'y' * (2 * j) for j in range(Mm)]
     D = [[((1 + i * Mm + j) * 0.5 if (i + 2 * j) % 4 != 3 else 0.0) for j in range(Mm)] for i in range(N)]
-    D[0][0] = 0.0
+    if N and Mm:
+        D[0][0] = 0.0
     if zero:
         # an all-zero observation and an all-zero sample (a label carried only by empty vectors)
         D[N - 1] = [0.0] * Mm
@@ -48,8 +50,13 @@ def make(shape, layout, zero=False):
             D[i][Mm - 1] = 0.0
     omd = [{'k': 'm' + x, 'slot': i} for i, x in enumerate(o)]
     smd = [{'k': 'm' + x, 'slot': j} for j, x in enumerate(s)]
-    cp = (lambda z: [dict(e) for e in z])
-    t = Table(np.array(D, float), o, s, cp(omd), cp(smd), type='OTU table')
+    if partial:
+        # metadata missing on the second id of each axis only (the constructor turns None into an empty entry)
+        for md_ in (omd, smd):
+            if len(md_) > 1:
+                md_[1] = {}
+    cp = (lambda z: [(dict(e) if e or not partial else None) for e in z])
+    t = Table(np.array(D, float).reshape(N, Mm), o, s, cp(omd), cp(smd), type='OTU table')
     if layout == 'csc':
         t.data(s[0], 'sample')
     elif layout == 'unsorted':
@@ -71,6 +78,17 @@ def cases(tier, seed):
                     if lay == 'csr' and sh == (3, 3):
                         out.append({'kind': 'label', 'shape': list(sh), 'layout': lay, 'axis': axis,
                                     'lab': list(lab), 'zero': True})
+    # metadata missing on some ids only; an empty other axis (the vectors to label are all of length zero)
+    for sh, axis in (((3, 3), 'sample'), ((3, 3), 'observation'), ((2, 3), 'sample'), ((3, 2), 'observation')):
+        n = sh[1] if axis == 'sample' else sh[0]
+        for lab in itertools.product(range(len(LABELS)), repeat=n):
+            out.append({'kind': 'label', 'shape': list(sh), 'layout': 'csr', 'axis': axis, 'lab': list(lab),
+                        'partial': True})
+    for sh, axis in (((0, 2), 'sample'), ((0, 3), 'sample'), ((2, 0), 'observation'), ((3, 0), 'observation')):
+        n = sh[1] if axis == 'sample' else sh[0]
+        for lab in itertools.product(range(len(LABELS)), repeat=n):
+            out.append({'kind': 'label', 'shape': list(sh), 'layout': 'csr', 'axis': axis, 'lab': list(lab),
+                        'partition_only': True})
     otm_shapes = [(2, 3), (3, 2)] + ([(3, 3)] if tier == 'thorough' else [])
     for sh in otm_shapes:
         for lay in ('csr', 'unsorted'):
@@ -87,13 +105,13 @@ def cases(tier, seed):
                                     'paths': list(a)})
     # pathway iterators that are not generators: an incomplete pathway ('!') raises IndexError from next() and the
     # iterator goes on; strict=False skips it, strict=True refuses
-    inc = [q for k in (1, 2, 3) for q in itertools.product('AB!', repeat=k) if '!' in q]
+    inc = [q for k in (1, 2, 3) for q in itertools.product((GA, GB, '!'), repeat=k) if '!' in q]
     for sh in ((2, 3), (3, 2)):
         for axis in ('sample', 'observation'):
             n = sh[1] if axis == 'sample' else sh[0]
             for first in inc:
-                for second in ((), ('A',), ('B', 'A'), ('!', 'B')):
-                    seqs = [list(first), list(second)] + [['A']] * (n - 2)
+                for second in ((), (GA,), (GB, GA), ('!', GB)):
+                    seqs = [list(first), list(second)] + [[GA]] * (n - 2)
                     out.append({'kind': 'otm', 'shape': list(sh), 'layout': 'csr', 'axis': axis, 'seqs': seqs})
     return out
 
@@ -119,7 +137,8 @@ def check(case, acc, tmp):
     if case['kind'] == 'otm':
         return check_otm(case, acc)
     from biom.exception import TableException
-    t0, m0 = make(case['shape'], case['layout'], case.get('zero', False))
+    mk = (lambda: make(case['shape'], case['layout'], case.get('zero', False), case.get('partial', False)))
+    t0, m0 = mk()
     axis = case['axis']
     ids = m0.ids(axis)
     labs = [LABELS[k] for k in case['lab']]
@@ -134,6 +153,8 @@ def check(case, acc, tmp):
     def fresh(x):
         return list(x) if isinstance(x, list) else x
     forms = {'by_id': lambda i, md: fresh(L[i]), 'by_md': lambda i, md: fresh(labs[md['slot']])}
+    if case.get('partial'):
+        del forms['by_md']          # the labelling by metadata needs the category on every id
     strlabs = all((isinstance(x, str) and x != '') or x is None for x in labs)
     if strlabs and any(x is not None for x in labs):
         d_c = {i: L[i] for i in ids if L[i] is not None}
@@ -147,7 +168,7 @@ def check(case, acc, tmp):
     for fname, f in forms.items():
         for rem in (False, True):
             for ign in (False, True):
-                t, _ = make(case['shape'], case['layout'], case.get('zero', False))
+                t, _ = mk()
                 acc.trans += 1
                 kw = dict(form=fname, remove_empty=rem, ignore_none=ign)
                 try:
@@ -193,15 +214,19 @@ def check(case, acc, tmp):
         if x is None:
             return None          # a None label is a label like any other for collapse (its group is named None)
         if isinstance(x, list):
-            return 'A|x'
+            return GA + '|x'
         return {0: 'zero', '': 'empty'}.get(x, x) if not isinstance(x, str) or x == '' else x
+    if case.get('partition_only'):
+        return          # collapsing vectors of length zero is refused by the constructor of the result
     L2 = {i: aslabel(L[i]) for i in ids}
     cforms = {'by_id': lambda i, md: L2[i], 'by_md': lambda i, md: L2[ids[md['slot']]]}
+    if case.get('partial'):
+        del cforms['by_md']
     for fname, f in cforms.items():
         for norm in (False, True):
             for mgs in (1, 2):
                 for inc in (True, False):
-                    t, _ = make(case['shape'], case['layout'], case.get('zero', False))
+                    t, _ = mk()
                     kw = dict(form=fname, norm=norm, min_group_size=mgs, include_collapsed_metadata=inc)
                     acc.trans += 1
                     groups = m0.groups(axis, lambda i, md: L2[i])
@@ -336,5 +361,5 @@ def run(run):
 
 
 def replay(case):
-    base = {k: v for k, v in case.items() if k in ('kind', 'shape', 'layout', 'axis', 'lab', 'paths', 'zero', 'seqs')}
+    base = {k: v for k, v in case.items() if k in ('kind', 'shape', 'layout', 'axis', 'lab', 'paths', 'zero', 'seqs', 'partial', 'partition_only')}
     return P.replay_case(check, base)
